@@ -51,6 +51,9 @@ class State(object):
     s = State(self.env, self.heap, self.pc, self.trace, self.seg)
     s.evidx = self.evidx
     s.ghost = dict(self.ghost)
+    if getattr(self, 'event_mode', False):
+      s.event_mode = True
+      s.allocidx = getattr(self, 'allocidx', 0)
     return s
 
   def assume(self, f):
@@ -315,7 +318,12 @@ _KIND_CLS = {'set': 'set', 'list': 'list', 'dict': 'dict', 'vtuple': 'tuple'}
 
 def alloc_obj(st, ty, hint='o', cls_name=None):
   """Fresh heap object distinct from everything allocated so far."""
-  t = fresh(hint, U)
+  if getattr(st, 'event_mode', False):
+    # event mode: allocation sites are named by (segment, index) so that both programs agree on them
+    st.allocidx = getattr(st, 'allocidx', 0) + 1
+    t = z3.Const('alloc!%s@%d' % (st.seg, st.allocidx), U)
+  else:
+    t = fresh(hint, U)
   h = st.heap
   st.assume(z3.Not(h.alloc(t)))
   st.assume(t != NONE)
